@@ -26,8 +26,8 @@ def positions(bad, good_int, rng):
     ]
 
 
-def build(seed: int):
-    """returns (program, offence statement id, expected exception classes, rule, position)"""
+def build(seed: int, only=None):
+    """returns (program, offence statement id, expected exception classes, rule, position); `only`: prefixes of the rule names to choose from"""
     rng = random.Random(seed)
     g = gen.Gen(seed, max_rows=6, profile="reject")
     cur = g.add_source("src0")
@@ -112,6 +112,18 @@ def build(seed: int):
                                                          dict(id=oid, op="join", src=tid, right="flt", on=[{"fn": "equal", "args": [good, {"col": ["flt", name_i]}]}], how="inner")])
     add(("join_on_non_bool", "verb"), ["DataTypeError"], [other, dict(id=oid, op="join", src=tid, right="oth", on=[{"fn": "add", "args": [good, {"col": ["oth", "id"]}]}], how="inner")])
     add(("join_on_window", "verb"), ["FunctionTypeError"], [other, dict(id=oid, op="join", src=tid, right="oth", on=[{"fn": "equal", "args": [{"fn": "row_number", "args": [], "arrange": [good]}, {"col": ["oth", "id"]}]}], how="inner")])
+    # … also when the window / aggregate function hides in the *condition* of a case expression (CaseExpr.ftype looks at the values only)
+    for nm, fn in (("case_condition_aggregate", {"fn": "max", "args": [{"col": ["oth", "id"]}]}),
+                   ("case_condition_window", {"fn": "row_number", "args": [], "arrange": [{"col": ["oth", "id"]}]})):
+        add(("join_on_window", nm), ["FunctionTypeError"],
+            [other, dict(id=oid, op="join", src=tid, right="oth", how="inner",
+                         on=[{"fn": "equal", "args": [good, {"case": [[{"fn": "greater_than", "args": [fn, {"lit": 2}]}, {"col": ["oth", "id"]}]],
+                                                               "default": {"col": ["oth", "id"]}}]}])])
+        add(("join_on_window", nm + "_second_predicate"), ["FunctionTypeError"],
+            [other, dict(id=oid, op="join", src=tid, right="oth", how="inner",
+                         on=[{"fn": "equal", "args": [good, {"col": ["oth", "id"]}]},
+                             {"fn": "less_than", "args": [good, {"case": [[{"fn": "greater_than", "args": [fn, {"lit": 2}]}, {"col": ["oth", "id"]}]],
+                                                                   "default": {"lit": 0}}]}])])
     add(("join_on_unrelated_column", "verb"), ["ValueError"], [other, dict(id="oth2", op="source", table="src_other"),
                                                               dict(id=oid, op="join", src=tid, right="oth", on=[{"fn": "equal", "args": [good, {"col": ["oth2", "id"]}]}], how="inner")])
     # a reference whose source table is still an ancestor but whose *column* is gone must not be accepted in `on`
@@ -128,6 +140,11 @@ def build(seed: int):
          dict(id=oid, op="join", src="lft", right="rgt", on=[{"fn": "equal", "args": [{"col": ["lft", "id"]}, {"col": ["rgt", "rid"]}]}], how="inner", suffix="_x")])
     add(("union_grouped", "left"), ["ValueError"], [gstmt, dict(id="al", op="alias", src=tid), dict(id=oid, op="union", src="grp", right="al")])
     add(("union_different_columns", "verb"), ["ValueError"], [other, dict(id=oid, op="union", src=tid, right="oth")])
+    # … also when one side shows every column of the other plus one more
+    add(("union_different_columns", "right_superset"), ["ValueError"],
+        [dict(id="al2", op="alias", src=tid), dict(id="mx", op="mutate", src="al2", cols=[["zz_extra", {"lit": 1}]]), dict(id=oid, op="union", src=tid, right="mx")])
+    add(("union_different_columns", "left_superset"), ["ValueError"],
+        [dict(id="al2", op="alias", src=tid), dict(id="mx", op="mutate", src=tid, cols=[["zz_extra", {"lit": 1}]]), dict(id=oid, op="union", src="mx", right="al2")])
     # 12. ordering markers outside arrange
     add(("marker_outside_arrange", "mutate_top"), ["TypeError"], dict(id=oid, op="mutate", src=tid, cols=[["zz", {"fn": "descending", "args": [a]}]]))
     add(("marker_outside_arrange", "mutate_nested"), ["TypeError"], dict(id=oid, op="mutate", src=tid, cols=[["zz", {"fn": "add", "args": [{"fn": "nulls_last", "args": [a]}, {"lit": 1}]}]]))
@@ -148,7 +165,11 @@ def build(seed: int):
         dict(id=oid, op="mutate", src=tid, cols=[["zz", {"fn": "shift", "args": [a, {"lit": 1}, {"lit": None}], "arrange": [deep2]}]]))
     add(("marker_outside_arrange", "summarize_depth2"), ["TypeError"], dict(id=oid, op="summarize", src=tid, cols=[["zz", {"fn": "sum", "args": [deep2]}]]))
 
-    rule, exp, st = cases[seed % len(cases)] if False else rng.choice(cases)
+    if only is not None:
+        cases = [c for c in cases if c[0][0].startswith(tuple(only))]
+        if not cases:
+            return None
+    rule, exp, st = rng.choice(cases)
     extra = st if isinstance(st, list) else [st]
     prog = g.program()
     prog = copy.deepcopy(prog)
